@@ -197,6 +197,33 @@ def obsRtFrom (st : VP9Pay) (p : VP9Packet) : List Call → List (List FragObs)
 def obsRt (flex : Bool) (init : UInt16) (calls : List Call) : List (List FragObs) :=
   obsRtFrom { flexible := flex, init := init } {} calls
 
+/-! ### the same with `FlexibleMode` per call
+
+  `VP9Payloader.FlexibleMode` is an exported field: a caller may set it by hand between frames.  A
+  history is then a list of (flag, call) pairs; every frame is judged in the mode its call was made
+  in, the picture id runs on across the changes. -/
+
+def rtFlipFrom : Nat → List (Bool × Call) → List (List FragObs) → Bool
+  | _, [], [] => true
+  | pid, (flex, c) :: cs, o :: os =>
+    (!proper flex c || frameOk flex pid (frameInfo c) (c.frame.getD []) o) &&
+    rtFlipFrom ((pid + 1) % 32768) cs os
+  | _, _, _ => false
+
+def rtFlip (init : UInt16) (calls : List (Bool × Call)) (o : List (List FragObs)) : Bool :=
+  rtFlipFrom (init.toNat % 32768) calls o
+
+def obsRtFlipFrom (st : VP9Pay) (p : VP9Packet) : List (Bool × Call) → List (List FragObs)
+  | [] => []
+  | (flex, c) :: cs =>
+    let (frags, st') := vp9PayloadF st flex c.mtu c.frame
+    let (os, p') := obsFrags p frags
+    os :: obsRtFlipFrom st' p' cs
+
+/-- a new payloader (whatever `FlexibleMode` it was built with: the field is set before each call) -/
+def obsRtFlip (init : UInt16) (calls : List (Bool × Call)) : List (List FragObs) :=
+  obsRtFlipFrom { flexible := false, init := init } {} calls
+
 /-! ### c08.vp9 / c09.vp9 -/
 
 def obsPay (flex : Bool) (init : UInt16) (calls : List (UInt16 × Option Bytes)) : List PayObs :=
